@@ -111,7 +111,7 @@ CHECKS['C06'] = dict(
           'same request signed; distinct = sha256 of the case JSON'),
     essential=['fault-fired-on-otherwise-signed-position', 'multi-fault-plan', 'enumerated-single-fault-cases', 'batch-with-rule-denied-positions'] + ['fired:' + s for s in [
         'fetch', 'check', 'isunlocked-err', 'unlock-err', 'unlock-false', 'locked-unknown-passphrase', 'rules', 'ruler', 'rules-list', 'store-fetch-err',
-        'store-store-err', 'store-batch-err', 'record-undecodable', 'store-closed-before', 'store-closed-at-fetch', 'store-closed-at-store',
+        'store-store-err OR fired:store-batch-err', 'record-undecodable', 'store-closed-before', 'store-closed-at-fetch', 'store-closed-at-store',
         'hash-fail', 'sign-err', 'non-signer']],
     assumptions=['fault model: errors/indeterminate answers at dependency boundaries, not memory corruption', 'herumi BLS verification is trusted'],
 )
@@ -133,8 +133,7 @@ CHECKS['C03'] = dict(
           '(self-kill) or n-th stdout line (external SIGKILL), optional second crash; non-trivial iff a signature had been released before the kill or the '
           'kill fell after the first storage read of a request (inside the record/sign/reply window); for L1 a history in which at least one Sign invocation '
           'was checked; distinct = sha256 of the case JSON'),
-    essential=['kill@store.fetch.enter', 'kill@store.fetch.exit', 'kill@store.store.enter', 'kill@store.store.exit', 'kill@store.batch.enter',
-               'kill@store.batch.exit', 'kill@sign.enter', 'kill@sign.exit', 'kill@return', 'kill@released', 'double-crash', 'external-sigkill',
+    essential=['kill@store.fetch.enter', 'kill@store.fetch.exit', 'kill@store.store.enter OR kill@store.batch.enter', 'kill@store.store.exit OR kill@store.batch.exit', 'kill@sign.enter', 'kill@sign.exit', 'kill@return', 'kill@released', 'double-crash', 'external-sigkill',
                'kill-after-a-release', 'traced', 'release-markers-checked-for-durability', 'record-checked-at-sign-invocation',
                'history-with-all-crash-points-enumerated', 'history-with-concurrent-requests', 'l1-requests-sent-concurrently'],
     assumptions=['strace -f -y is available and ptrace is permitted', 'badger recovery code and the kernel are trusted',
